@@ -82,7 +82,7 @@ func (pm *ProtocolMessenger) PutValue(ctx context.Context, p peer.ID, rec *recpb
 		return err
 	}
 
-	if !bytes.Equal(rpmes.GetRecord().Value, pmes.GetRecord().Value) {
+	if !bytes.Equal(rpmes.GetRecord().GetValue(), pmes.GetRecord().GetValue()) {
 		const errStr = "value not put correctly"
 		logger.Infow(errStr, "put-message", pmes, "get-message", rpmes)
 		return errors.New(errStr)
